@@ -28,6 +28,7 @@ type Ctx struct {
 	machineErr error
 	pds        *scanpds.Result
 	cfgs       map[*ast.BlockStmt]*cfgx.Func
+	sums       *summaries
 }
 
 func NewCtx(p *load.Program, run *report.Run, tier string) *Ctx {
@@ -75,6 +76,7 @@ func (c *Ctx) CFG(pk *packages.Package, body *ast.BlockStmt) *cfgx.Func {
 		return f
 	}
 	f := cfgx.New(body, pk.TypesInfo)
+	f.Expand = c.expandFact(pk)
 	c.cfgs[body] = f
 	return f
 }
